@@ -153,3 +153,28 @@ def atomic_ctor_episodes():
         eps.append({"fam": "bitvec", "src": "recipe", "ops": [{"op": "a_new", "n": n}, {"op": "a_iter"},
                                                                 {"op": "a_par_flip"}, {"op": "a_par_count_ones"}]})
     return eps
+
+
+def dirty_episodes(seed, count):
+    """C14: every episode starts from caller-supplied storage with arbitrary bits
+    beyond the length (same word and spare words) and mixes readers and writers."""
+    r = random.Random(seed ^ 0x14)
+    eps = []
+    for _ in range(count):
+        n = rlen(r)
+        nw = (n + W - 1) // W + r.choice([0, 1, 2])
+        g = r.randrange(4)
+        if g == 0:
+            st = rstore(r, nw * W)
+        elif g == 1:
+            st = rstore(r, n) + list(range(n, nw * W))
+        elif g == 2:
+            st = list(range(nw * W))
+        else:
+            st = rstore(r, n, 0.5) + [p for p in range(n, nw * W) if p % 2 == 1]
+        ep = episode(r, r.randrange(3, 25), src="dirty")
+        ep["ops"][0] = {"op": "raw", "rlen": n, "rnw": nw, "rstore": sorted(set(st))}
+        # argument choice in episode() tracked the original constructor's length;
+        # indices may be out of range here, which the specification handles (panic)
+        eps.append(ep)
+    return eps
